@@ -10,12 +10,14 @@ struct Buf(UnsafeCell<[u8; CAP]>);
 unsafe impl Sync for Buf {}
 static CUR: Buf = Buf(UnsafeCell::new([0; CAP]));
 static CUR_LEN: AtomicUsize = AtomicUsize::new(0);
-/// start of the current edge (ms since process start), for the watchdog
+/// start of the current edge (process CPU ms), for the watchdog
 static CUR_START: AtomicU64 = AtomicU64::new(0);
-/// a single edge may not run longer than this: a broken subject can turn an iterator into an endless loop
+/// a single edge may not burn more CPU time than this: a broken subject can turn an iterator into an endless loop
 pub const EDGE_LIMIT_MS: u64 = 60_000;
 
-fn now_ms() -> u64 { static T0: std::sync::OnceLock<std::time::Instant> = std::sync::OnceLock::new(); T0.get_or_init(std::time::Instant::now).elapsed().as_millis() as u64 }
+/// CPU time consumed by this process (not wall time: a frozen or starved process - e.g. while the sandbox is being
+/// snapshotted - must not look like an endless loop)
+fn now_ms() -> u64 { unsafe { let mut ts: libc::timespec = std::mem::zeroed(); libc::clock_gettime(libc::CLOCK_PROCESS_CPUTIME_ID, &mut ts); ts.tv_sec as u64 * 1000 + ts.tv_nsec as u64 / 1_000_000 } }
 
 /// remember what is being executed (called before every edge)
 pub fn set_current(s: &str) {
